@@ -12,3 +12,8 @@ func At(point string) {}
 
 // AtHV marks a named yield point that belongs to a (height, view) pair.
 func AtHV(point string, height, view uint64) {}
+
+// Yield and Held are called only from instrumented scratch copies of the library (never from the repository itself).
+func Yield(point string) {}
+
+func Held(delta int) {}
